@@ -11,7 +11,7 @@ def fail_items(rng, n):
     """workflows whose expressions cannot be evaluated at run time, or whose steps misbehave"""
     items = []
     kinds = ['omitted-optional-input', 'index-out-of-range', 'failing-conversion', 'float-nan-to-int', 'bad-step-data',
-             'arithmetic-on-strings', 'omitted-optional-in-step-input', 'missing-map-key']
+             'arithmetic-on-strings', 'omitted-optional-in-step-input', 'missing-map-key', 'arithmetic-on-plugin-integers']
     for i in range(n):
         kind = kinds[i % len(kinds)]
         wf = {'steps': {}, 'outputs': {}}
@@ -36,6 +36,8 @@ def fail_items(rng, n):
             bad = fexpr('floatToInt(stringToFloat("NaN"))', [])
         elif kind == 'arithmetic-on-strings':
             bad = fexpr('intToString($.steps.a.outputs.success.n / 0)', ['steps.a.outputs.success.n'])
+        elif kind == 'arithmetic-on-plugin-integers':
+            bad = fexpr('$.steps.a.outputs.success.n + 1', ['steps.a.outputs.success.n'])
         elif kind == 'missing-map-key':
             bad = fexpr('$.steps.a.outputs.success.l[$.input.n]', ['steps.a.outputs.success.l', 'input.n'])
         elif kind == 'bad-step-data':
